@@ -82,6 +82,19 @@ def edited_queries(out, prop, tier, wd):
     return n
 
 
+def merged_histories(out, prop, tier, wd):
+    """C12 in the merged-text view (the view XPath and the tools use): random histories on a document opened with
+    Context::from_text_expanded(true); only the agreement of the navigational views is judged (Trace_Dom C12Merged)"""
+    nh, ln = {"quick": (8, 120), "thorough": (80, 300)}[tier]
+    rec = os.path.join(wd, "merged.trace")
+    so, crashed = C.run_harness_watched(["dom-record", "--out", rec, "--histories", str(nh), "--len", str(ln),
+                                         "--seed", str(C.seed()), "--merged"], rec, timeout=3000)
+    st = {"steps": 0} if crashed else json.loads(so.strip().splitlines()[-1])
+    _validate(out, prop, rec, "merged")
+    os.unlink(rec)
+    return st["steps"]
+
+
 def c15_histories(out, prop, tier, wd):
     """C15 over structural histories: random insertions / removals / attribute edits over a pool whose character data is
     harmless node by node and dangerous in combination; after every successful state-changing call the document is
@@ -166,6 +179,10 @@ def run(prop, tier):
             out.sample({"call": e.get("call"), "out": e.get("out"),
                         "pre_kids": e.get("pre", {}).get("kids"), "post_kids": e.get("post", {}).get("kids")})
         extra_eval = 0
+        if prop == "C12":
+            msteps = merged_histories(out, prop, tier, wd)
+            out.extra["merged_view_history_steps"] = msteps
+            extra_eval += msteps
         if prop == "C13":
             # value / data setters and the create_* factories (exception classes, no panic, atomic failure)
             import domtext
